@@ -260,6 +260,10 @@ def mc_wrapper_stream(rng, n):
         c = G.gen_case(rng, want_mc=True)
         if c['cfg']['multiclient']:
             cases.append(c)
+            if rng.random() < 0.5:
+                # the same names and the same configuration on a model whose events have other signatures,
+                # built next in the same process
+                cases.append(G.sibling_of(rng, c))
     stripped = [X.strip(c) for c in cases]
     models = run_driver(stripped) if stripped else []
     failures, disagreements, shapes = [], [], []
@@ -294,6 +298,12 @@ def text_routing_stream(rng, n, mc_fraction, clause_filter=None):
     for c in base:
         shared = {}
         for v in (c, G.flipped_semantics(c)):
+            cases.append(v)
+            impls.append(G.build_impl(dict(X.strip(v), op='build.route'), shared))
+        if rng.random() < 0.4:
+            # a sibling model (same names, other event signatures / extern types) under the same configuration,
+            # built by the same Builder right after
+            v = G.sibling_of(rng, c)
             cases.append(v)
             impls.append(G.build_impl(dict(X.strip(v), op='build.route'), shared))
     stripped = [dict(X.strip(c), op='build.route') for c in cases]
